@@ -219,6 +219,20 @@ pub(crate) fn value_of_correct_type(
                     );
                 }
 
+                // https://spec.graphql.org/October2021/#sec-Input-Object-Field-Uniqueness
+                for (index, (name, _)) in obj.iter().enumerate() {
+                    if let Some((original, _)) = obj[..index].iter().find(|(n, _)| n == name) {
+                        diagnostics.push(
+                            name.location(),
+                            DiagnosticData::UniqueInputValue {
+                                name: name.clone(),
+                                original_definition: original.location(),
+                                redefined_definition: name.location(),
+                            },
+                        );
+                    }
+                }
+
                 input_obj.fields.iter().for_each(|(input_name, f)| {
                     let ty = &f.ty;
                     let is_missing = !obj.iter().any(|(value_name, ..)| input_name == value_name);
